@@ -427,7 +427,9 @@ _WI_TRUST = ["Model/Proxy.v (hand-written; tied by the wire suite on the real cm
 PROPS["C01"] = dict(
     props_file="Props/C01.v", gen=["Wrappers", "ProxyFacts"],
     suites=[dict(suite="wire", corr=["diff_fwd", "diff_resp"], monitors=["mon_c01_req", "mon_c01_resp", "mon_c01_stream"],
-                 classifiers={}, nontrivial="nt_c01")],
+                 classifiers={}, nontrivial="nt_c01"),
+            # backends added at run time, two of them on one server under different base paths: each request reaches its backend's own address
+            dict(suite="stall", corr=[], monitors=["mon_c11_readd"], classifiers={}, nontrivial="mon_c11_readd", filter=lambda c: c["repl"].get("kind") == "readd")],
     rule="the real cmd/helios binary (built from the current tree, one process per generated configuration: 5 strategies, 1-2 backends, "
          "backend base paths, ID features on/off, plugin chains of length 0..5, handler timeout set or not) in front of scripted backends "
          "over real sockets; 9 methods, 13 paths (escaped, dot segments, double slash, long), 9 query forms, multi-valued / empty / "
